@@ -5,14 +5,21 @@ tie:    hand-written model AdeptModel/GradAlloc.lean  <->  Stack::register/unreg
         run on the same histories through the public API and through real adouble / aVector /
         active FixedArray objects; every observable (returned index, i_gradient, max_gradients,
         n_gradients_registered, gap list, cursor position) compared exactly after every step.
-oracle: bitmap of live slots computed from the implementation's own output.
+        object layer AdeptModel/GradObj.lean (Active, Storage reference counting, Array/SpecialMatrix copy/link/view/resize/clear/
+        assign/swap, FixedArray, std::vector<adouble>, adouble[]) <-> the real objects: after EVERY step the allocator observables
+        plus, per live object, its gradient indices / (gradient_index, slots spanned, storage block, link count).
+oracle: bitmap of live slots computed from the implementation's own output (owners = scalars, fixed arrays, vector elements,
+        storages; views must lie inside their storage; link counts must equal the number of live referents; objects an operation
+        does not name keep their slots).
 """
 import os, itertools
 import vbuild, vcheck
 
 LEVEL = "proof"
 REQUIRED = ["C08_inv_init", "C08_inv_step", "C08_inv_reachable", "C08_fresh_disjoint", "C08_fresh_disjoint1",
-            "C08_live_distinct_below", "C08_recycled_never_shared", "C08_gaps_canonical", "C08_cursor_irrelevant"]
+            "C08_live_distinct_below", "C08_recycled_never_shared", "C08_gaps_canonical", "C08_cursor_irrelevant",
+            "C08_obj_history_legal", "C08_obj_prim_history_legal", "C08_obj_owners_disjoint", "C08_obj_views_within_owner",
+            "C08_obj_storage_live_iff_linked", "C08_obj_alloc_fault_registers_nothing"]
 NS = "Adept.GradAlloc."
 
 
@@ -191,6 +198,582 @@ def oracle(hist, lines):
     return None
 
 
+# ------------------------------------------------------------------ object layer: generators
+# The generator keeps just enough knowledge of the objects (type, dimensions) to propose applicable operations; an operation that
+# turns out not to be applicable prints bad-op on both sides and changes nothing.
+KINDS = (1, 2, 3, 10, 11, 14, 15)      # aVector, aMatrix, aArray3D, aSquareMatrix, aSymmMatrix, aTridiagMatrix, aDiagMatrix
+
+
+def nargs(kind):
+    return kind if kind < 10 else 1
+
+
+def rand_dims(rng, kind, P):
+    if kind >= 10:
+        return [rng.choice([1, 2, 3, 4])]
+    if kind == 1:
+        return [rng.choice([1, 1, 2, 3, 4, 5, 7])]
+    if kind == 2:      # rows of at least two packets are padded to a multiple of the packet size
+        return [rng.choice([1, 2, 3]), rng.choice([1, 2, 3, 2 * P, 2 * P + 1])]
+    return [rng.choice([1, 2]), rng.choice([1, 2, 3]), rng.choice([1, 2, 2 * P + 1])]
+
+
+def rand_spec(rng, dims):
+    """one index per dimension, at least one of them a range; non-empty, in range"""
+    n = len(dims)
+    keep = rng.randrange(n)
+    out, newdims = [], []
+    for i, d in enumerate(dims):
+        if i != keep and rng.random() < 0.5:
+            out.append("f%d" % rng.randrange(d))
+        else:
+            lo = rng.randrange(d); hi = rng.randrange(lo, d); st = rng.choice([1, 1, 1, 2, 3])
+            out.append("r%d:%d:%d" % (lo, hi, st)); newdims.append((hi - lo) // st + 1)
+    return out, newdims
+
+
+class Gen:
+    def __init__(self):
+        self.nxt = 0
+        self.scal, self.fixed, self.blks = [], [], []
+        self.vecs = {}       # handle -> length
+        self.arrs = {}       # handle -> [kind, dims or None]
+
+    def fresh(self):
+        self.nxt += 1
+        return self.nxt - 1
+
+    def live(self):
+        return self.scal + self.fixed + self.blks + list(self.vecs) + list(self.arrs)
+
+    def drop(self, k):
+        for l in (self.scal, self.fixed, self.blks):
+            if k in l:
+                l.remove(k)
+        self.vecs.pop(k, None); self.arrs.pop(k, None)
+
+
+def random_obj_history(rng, length, P, pauses=False):
+    g = Gen()
+    hist = []
+    target = rng.choice([4, 8, 14, 24])
+    paused = False
+    while len(hist) < length:
+        live = g.live()
+        arrs = sorted(g.arrs)
+        nonempty = [k for k in arrs if g.arrs[k][1] is not None]
+        if pauses and rng.random() < 0.04:
+            paused = not paused
+            hist.append("pause" if paused else "cont")
+            continue
+        r = rng.random()
+        if live and (len(live) > target or r < 0.22):
+            # destruction, mostly not of the newest object
+            k = live[-1] if rng.random() < 0.15 else rng.choice(live)
+            hist.append("d %d" % k); g.drop(k)
+            continue
+        c = rng.choices(["scal", "fixed", "vn", "vp", "vo", "ve", "bn", "am", "amx", "cp", "sl", "ln", "cl", "rz", "rzx", "as", "alias", "sa",
+                         "sw", "nr"],
+                        [10, 3, 1.5, 6, 1, 1, 1.5, 8, 1.5, 5, 6, 4, 2, 3, 1, 3, 1.5, 1.5, 1, 0.7])[0]
+        if c == "scal":
+            k = g.fresh()
+            q = rng.random()
+            if q < 0.3 or not g.scal:
+                hist.append(rng.choice(["a1 %d", "ap %d"]) % k)
+            elif q < 0.5:
+                hist.append("ac %d %d" % (k, rng.choice(g.scal)))
+            elif q < 0.75:
+                hist.append("ae %d %d %d" % (k, rng.choice(g.scal), rng.choice(g.scal)))
+            else:
+                hist.append("at %d %d %d" % (k, rng.choice(g.scal), rng.choice(g.scal)))
+            g.scal.append(k)
+        elif c == "fixed":
+            k = g.fresh(); hist.append("af %d %d" % (k, rng.randint(1, 4))); g.fixed.append(k)
+        elif c == "vn":
+            if len(g.vecs) < 2:
+                k = g.fresh(); hist.append("vn %d" % k); g.vecs[k] = 0
+        elif c == "vp" and g.vecs:
+            k = rng.choice(sorted(g.vecs))
+            if g.vecs[k] < 9:
+                hist.append("vp %d" % k); g.vecs[k] += 1
+        elif c == "vo" and g.vecs:
+            k = rng.choice(sorted(g.vecs))
+            if g.vecs[k] > 0:
+                hist.append("vo %d" % k); g.vecs[k] -= 1
+        elif c == "ve" and g.vecs:
+            k = rng.choice(sorted(g.vecs))
+            if g.vecs[k] > 0:
+                hist.append("ve %d %d" % (k, rng.randrange(g.vecs[k]))); g.vecs[k] -= 1
+        elif c == "bn":
+            k = g.fresh(); hist.append("bn %d %d" % (k, rng.choice([1, 2, 3, 5]))); g.blks.append(k)
+        elif c == "am":
+            k = g.fresh(); kind = rng.choice(KINDS); d = rand_dims(rng, kind, P)
+            if rng.random() < 0.06:
+                d[rng.randrange(len(d))] = 0
+            hist.append("am %d %d %s" % (k, kind, " ".join(map(str, d))))
+            g.arrs[k] = [kind, None if 0 in d else d]
+        elif c == "amx":
+            k = g.fresh(); kind = rng.choice(KINDS); d = rand_dims(rng, kind, P)
+            hist.append("amx %d %d %s" % (k, kind, " ".join(map(str, d))))
+        elif c == "cp" and arrs:
+            k = g.fresh(); s = rng.choice(arrs)
+            hist.append("cp %d %d" % (k, s)); g.arrs[k] = [g.arrs[s][0], g.arrs[s][1]]
+        elif c == "sl":
+            cand = [k for k in nonempty if g.arrs[k][0] < 10]
+            if cand:
+                s = rng.choice(cand); k = g.fresh()
+                spec, nd = rand_spec(rng, g.arrs[s][1])
+                hist.append("sl %d %d %s" % (k, s, " ".join(spec))); g.arrs[k] = [len(nd), nd]
+        elif c == "ln" and len(arrs) >= 2:
+            k = rng.choice(arrs)
+            cand = [s for s in arrs if s != k and g.arrs[s][0] == g.arrs[k][0]]
+            if cand:
+                s = rng.choice(cand)
+                hist.append("ln %d %d" % (k, s))
+                if g.arrs[s][1] is not None:
+                    g.arrs[k][1] = g.arrs[s][1]
+        elif c == "cl" and arrs:
+            k = rng.choice(arrs); hist.append("cl %d" % k); g.arrs[k][1] = None
+        elif c in ("rz", "rzx") and arrs:
+            k = rng.choice(arrs); d = rand_dims(rng, g.arrs[k][0], P)
+            if c == "rz" and rng.random() < 0.08:
+                d[rng.randrange(len(d))] = 0
+            hist.append("%s %d %s" % (c, k, " ".join(map(str, d))))
+            g.arrs[k][1] = None if (c == "rzx" or 0 in d) else d
+        elif c == "as" and len(arrs) >= 2:
+            k = rng.choice(arrs)
+            cand = [s for s in arrs if s != k and g.arrs[s][0] == g.arrs[k][0] and g.arrs[k][0] < 10]
+            if cand:
+                s = rng.choice(cand)
+                hist.append("as %d %d" % (k, s))
+                if g.arrs[k][1] is None and g.arrs[s][1] is not None:
+                    g.arrs[k][1] = g.arrs[s][1]
+        elif c == "alias":
+            # two overlapping views of one vector assigned to each other: the library makes a temporary active array
+            cand = [k for k in nonempty if g.arrs[k][0] == 1 and g.arrs[k][1][0] >= 2]
+            if cand:
+                s = rng.choice(cand); d = g.arrs[s][1][0]
+                a, b = g.fresh(), g.fresh()
+                hist.append("sl %d %d r0:%d:1" % (a, s, d - 2)); hist.append("sl %d %d r1:%d:1" % (b, s, d - 1))
+                hist.append("as %d %d" % (a, b))
+                g.arrs[a] = [1, [d - 1]]; g.arrs[b] = [1, [d - 1]]
+        elif c == "sa" and len(arrs) >= 2:
+            k = rng.choice(arrs)
+            cand = [s for s in arrs if s != k and g.arrs[s][0] == g.arrs[k][0] and g.arrs[k][0] < 10]
+            if cand:
+                s = rng.choice(cand)
+                hist.append("sa %d %d" % (k, s)); g.arrs[k], g.arrs[s] = g.arrs[s], g.arrs[k]
+        elif c == "sw" and len(g.scal) >= 2:
+            a, b = rng.sample(g.scal, 2); hist.append("sw %d %d" % (a, b))
+        elif c == "nr":
+            hist.append("nr")
+    return hist[:length + 2]
+
+
+def exhaustive_obj(L):
+    """ALL maximal histories of length L over: new scalar, new aVector(2), failing aVector(2), new std::vector + emplace_back, and for
+    every live array copy / view of its first element / clear / resize(3) / failing resize(3), link of every ordered pair of arrays,
+    destruction of every live object"""
+    out = []
+
+    def rec(hist, scal, vecs, arrs, nxt):
+        # arrs: tuple of (handle, nonempty)
+        if len(hist) == L:
+            out.append(list(hist))
+            return
+        hist.append("a1 %d" % nxt); rec(hist, scal + (nxt,), vecs, arrs, nxt + 1); hist.pop()
+        hist.append("am %d 1 2" % nxt); rec(hist, scal, vecs, arrs + ((nxt, True),), nxt + 1); hist.pop()
+        hist.append("amx %d 1 2" % nxt); rec(hist, scal, vecs, arrs, nxt + 1); hist.pop()
+        if not vecs:
+            hist.append("vn %d" % nxt); rec(hist, scal, vecs + (nxt,), arrs, nxt + 1); hist.pop()
+        for v in vecs:
+            hist.append("vp %d" % v); rec(hist, scal, vecs, arrs, nxt); hist.pop()
+        for i, (k, ne) in enumerate(arrs):
+            hist.append("cp %d %d" % (nxt, k)); rec(hist, scal, vecs, arrs + ((nxt, ne),), nxt + 1); hist.pop()
+            if ne:
+                hist.append("sl %d %d r0:0:1" % (nxt, k)); rec(hist, scal, vecs, arrs + ((nxt, True),), nxt + 1); hist.pop()
+            rest = arrs[:i] + arrs[i + 1:]
+            hist.append("cl %d" % k); rec(hist, scal, vecs, arrs[:i] + ((k, False),) + arrs[i + 1:], nxt); hist.pop()
+            hist.append("rz %d 3" % k); rec(hist, scal, vecs, arrs[:i] + ((k, True),) + arrs[i + 1:], nxt); hist.pop()
+            hist.append("rzx %d 3" % k); rec(hist, scal, vecs, arrs[:i] + ((k, False),) + arrs[i + 1:], nxt); hist.pop()
+            for (j, nej) in rest:
+                hist.append("ln %d %d" % (k, j))
+                rec(hist, scal, vecs, arrs[:i] + ((k, nej if nej else ne),) + arrs[i + 1:], nxt); hist.pop()
+            hist.append("d %d" % k); rec(hist, scal, vecs, rest, nxt); hist.pop()
+        for k in scal:
+            hist.append("d %d" % k); rec(hist, tuple(x for x in scal if x != k), vecs, arrs, nxt); hist.pop()
+        for v in vecs:
+            hist.append("d %d" % v); rec(hist, scal, tuple(x for x in vecs if x != v), arrs, nxt); hist.pop()
+
+    rec([], (), (), (), 0)
+    return out
+
+
+def directed_obj(P):
+    """every array type x a few shapes (padded rows included): object, copy, view, link, a scalar in between; the parent goes first,
+    then the others in every order; a resize and a clear of a linked array in between"""
+    out = []
+    shapes = {1: [[1], [3]], 2: [[1, 1], [2, 3], [2, 2 * P], [3, 2 * P + 1]], 3: [[1, 1, 1], [2, 2, 2], [2, 2, 2 * P + 1]],
+              10: [[1], [3]], 11: [[2], [4]], 14: [[1], [3]], 15: [[1], [4]]}
+    for kind in KINDS:
+        for d in shapes[kind]:
+            ds = " ".join(map(str, d))
+            base = ["a1 0", "am 1 %d %s" % (kind, ds), "a1 2", "cp 3 1", "am 4 %d %s" % (kind, ds), "ln 4 1", "a1 5"]
+            if kind < 10:
+                spec = " ".join(["f0"] * (kind - 1) + ["r0:%d:1" % (d[-1] - 1)])
+                base += ["sl 6 1 %s" % spec, "sl 9 1 %s" % " ".join("r%d:%d:1" % (x - 1, x - 1) for x in d)]
+            views = [3, 4] + ([6, 9] if kind < 10 else [])
+            for order in itertools.permutations(views):
+                h = list(base) + ["d 1", "a1 7"]
+                for n, k in enumerate(order):
+                    if n == 1:
+                        h.append(("rz %d %s" % (k, ds)) if k in (3, 4) else "cl %d" % k)
+                        h.append("a1 %d" % (10 + n))
+                    h.append("d %d" % k)
+                    h.append("am %d %d %s" % (20 + n, kind, ds))
+                h += ["d 0", "d 2", "nr", "am 30 %d %s" % (kind, ds)]
+                out.append(h)
+    return out
+
+
+def directed_misc(P):
+    """directed programs for the operations the exhaustive alphabet does not contain: swap of arrays (with a copy, with an empty
+    array), assignment to an empty array, aliased assignment (temporary active array), std::swap / copies / expression temporaries of
+    scalars with gaps open, std::vector<adouble> growth across four reallocations with erase/pop and neighbours freed in between,
+    adouble[n] blocks freed out of order, active FixedArrays between them"""
+    out = []
+    shapes = {1: [[2], [5]], 2: [[2, 2], [2, 2 * P + 1]], 3: [[1, 2, 2], [2, 1, 2 * P]]}
+    for kind in (1, 2, 3):
+        for d in shapes[kind]:
+            for d2 in shapes[kind]:
+                ds, ds2 = " ".join(map(str, d)), " ".join(map(str, d2))
+                zero = " ".join(["0"] * kind)
+                for first in ("d 1", "d 2", "d 4"):
+                    h = ["a1 0", "am 1 %d %s" % (kind, ds), "a1 9", "am 2 %d %s" % (kind, ds2), "a1 3", "sa 1 2", "cp 4 1", "d 9", "sa 4 2",
+                         "am 5 %d %s" % (kind, zero), "as 5 1", "sa 5 2", "am 6 %d %s" % (kind, zero), "sa 6 4", "cl 2", "as 2 5", first, "a1 7",
+                         "rz 6 %s" % ds2, "as 6 5", "sa 6 5"]
+                    h += [x for x in ("d 1", "d 2", "d 4") if x != first] + ["ap 8", "d 5", "d 6", "d 0", "nr", "am 10 %d %s" % (kind, ds)]
+                    out.append(h)
+    for n in (2, 3, 5):
+        # overlapping views of one vector assigned to each other, with a gap open below and above
+        out.append(["a1 0", "am 1 1 %d" % n, "a1 2", "sl 3 1 r0:%d:1" % (n - 2), "sl 4 1 r1:%d:1" % (n - 1), "d 0", "as 3 4", "a1 5", "d 2",
+                    "as 4 3", "am 6 1 %d" % (n - 1), "as 6 3", "as 3 6", "d 1", "as 3 4", "d 3", "d 4", "d 6", "d 5"])
+    # scalars: copies, expression temporaries and std::swap while gaps of one and two slots are open
+    for gap in (["d 1"], ["d 1", "d 2"], ["d 2", "d 1"], ["d 3"], []):
+        out.append(["a1 0", "ap 1", "a1 2", "ap 3", "a1 4"] + gap +
+                   ["sw 0 4", "at 5 0 4", "ac 6 5", "ae 7 0 4", "d 5", "at 8 6 7", "sw 6 8", "d 0", "ac 9 8", "at 10 9 4", "d 4", "d 6", "sw 7 8",
+                    "d 7", "d 8", "d 9", "d 10"])
+    # std::vector<adouble>: growth 0 -> 1 -> 2 -> 4 -> 8 -> 16 with neighbours created and freed, erase and pop
+    for k in range(4):
+        h = ["a1 0", "vn 1", "af 2 3"]
+        for i in range(10):
+            h.append("vp 1")
+            if i % 4 == k:
+                h += ["a1 %d" % (10 + i)]
+            if i % 4 == (k + 2) % 4 and i >= 2:
+                h += ["d %d" % (10 + i - 2)] if (i - 2) % 4 == k else []
+            if i == 5:
+                h += ["ve 1 %d" % k, "vo 1"]
+        h += ["d 2", "vp 1", "vn 3", "vp 3", "vp 1", "d 0", "vp 3", "d 1", "vp 3", "d 3"]
+        out.append(h)
+    # adouble[n] blocks and fixed arrays freed out of order
+    for order in itertools.permutations([1, 3, 4, 5]):
+        out.append(["a1 0", "bn 1 3", "a1 2", "af 3 2", "bn 4 2", "af 5 4"] + ["d %d" % k for k in order[:2]] + ["bn 6 4", "af 7 3", "a1 8"]
+                   + ["d %d" % k for k in order[2:]] + ["bn 9 2", "d 6", "d 0", "d 7", "d 9", "d 2", "d 8"])
+    return out
+
+
+# ------------------------------------------------------------------ object layer: oracle
+import re
+ENT = re.compile(r"(\d+)=([SFVBA])(\d*)\[([^\]]*)\](?:c(\d+))?")
+
+
+def parse_dump(text):
+    """'k=S[3] k=A2[11+17@11/18/2] ..' -> {handle: entry}; entry = ('S'|'B', [idx..]) | ('V', [idx..], cap) | ('F', idx, n) |
+    ('A', kind, None) | ('A', kind, g, span, sgi, sn, links, data offset)"""
+    out = {}
+    for tok in text.split():
+        m = ENT.fullmatch(tok)
+        if not m:
+            return None
+        k, t, kind, body, cap = m.groups()
+        k = int(k)
+        try:
+            if t in "SB":
+                out[k] = (t, [int(x) for x in body.split(",") if x])
+            elif t == "V":
+                out[k] = ("V", [int(x) for x in body.split(",") if x], int(cap))
+            elif t == "F":
+                a, b = body.split("+"); out[k] = ("F", int(a), int(b))
+            else:
+                if body == "e":
+                    out[k] = ("A", int(kind), None)
+                else:
+                    m2 = re.fullmatch(r"(-?\d+)\+(\d+)@(-?\d+)/(\d+)/(\d+)~(-?\d+)", body)
+                    if not m2:
+                        return None
+                    out[k] = ("A", int(kind)) + tuple(int(x) for x in m2.groups())
+        except ValueError:
+            return None
+    return out
+
+
+def nolinks(e):
+    return e[:6] + e[7:] if e and e[0] == "A" and e[2] is not None else e
+
+
+def prod(l):
+    r = 1
+    for x in l:
+        r *= x
+    return r
+
+
+def special_size(kind, d):
+    return {10: d * d, 11: d * d, 14: 3 * d - 2, 15: d}[kind]
+
+
+def obj_oracle(hist, lines):
+    """judge the property from the implementation's output alone (the model is not consulted): (step, message) or None"""
+    prev = {}
+    for i, (op, line) in enumerate(zip(hist, lines)):
+        if line == "bad-op":
+            continue                       # not applicable (shrunk histories): nothing may have changed, the next line shows it
+        if line.startswith("fault-not-delivered") or line.startswith("exception") or line.startswith("cfg-mismatch"):
+            return i, "harness: " + line
+        head, sep, dump = line.partition(" |")
+        d = parse_obs(head)
+        m = re.search(r"(\d+)=A\d+\[e!(-?\d+)\]", dump)
+        if m:
+            return i, "array %s has no storage (it is empty) but reports gradient index %s" % (m.group(1), m.group(2))
+        cur = parse_dump(dump) if sep else None
+        if d is None or cur is None:
+            return i, "unparsable observation %r" % line[:200]
+        # ---- the state by itself: owners are disjoint, below max_gradients(), counted; views lie in their storage; links are exact
+        owner = {}
+        stor = {}
+        for k in sorted(cur):
+            e = cur[k]
+            blocks = []
+            if e[0] in "SBV":
+                if e[0] == "S" and len(e[1]) != 1:
+                    return i, "scalar %d reports %d indices" % (k, len(e[1]))
+                blocks = [(x, 1) for x in e[1]]
+            elif e[0] == "F":
+                blocks = [(e[1], e[2])]
+            elif e[2] is not None:
+                _, kind, g, span, sgi, sn, links, doff = e
+                if sgi < 0 or sn < 1:
+                    return i, "array %d: storage reports gradient index %d, %d elements" % (k, sgi, sn)
+                if g != sgi + doff:
+                    return i, ("array %d: element at data offset %d of its storage has gradient index %d, the storage gives it %d"
+                               % (k, doff, g, sgi + doff))
+                if not (sgi <= g and g + span <= sgi + sn and span >= 1):
+                    return i, "array %d addresses slots [%d,%d) outside the block [%d,%d) of its storage" % (k, g, g + span, sgi, sgi + sn)
+                stor.setdefault((sgi, sn), []).append((k, links))
+            for (a, n) in blocks:
+                if a < 0:
+                    return i, "object %d reports gradient index %d" % (k, a)
+                for j in range(a, a + n):
+                    if j in owner:
+                        return i, "slot %d is held by live object %s and by live object %d" % (j, owner[j], k)
+                    owner[j] = k
+        for (sgi, sn), refs in sorted(stor.items()):
+            for j in range(sgi, sgi + sn):
+                if j in owner:
+                    return i, "slot %d is held by live object %s and by the storage of array %d" % (j, owner[j], refs[0][0])
+                owner[j] = "storage@%d(array %d)" % (sgi, refs[0][0])
+            for (k, links) in refs:
+                if links != len(refs):
+                    return i, ("storage at slots [%d,%d) reports %d links but %d live arrays refer to it (%s)"
+                               % (sgi, sgi + sn, links, len(refs), [r[0] for r in refs]))
+        if owner and max(owner) >= d["mg"]:
+            return i, "live slot %d is not below max_gradients()=%d" % (max(owner), d["mg"])
+        if d["nr"] != len(owner):
+            return i, "n_gradients_registered()=%d but %d active elements are live" % (d["nr"], len(owner))
+        # ---- the transition: what the operation names changes as its meaning says, everything else keeps its slots
+        w = op.split()
+        c = w[0]
+        k = int(w[1]) if len(w) > 1 else None
+        touched = set()
+        create = {"a1": "S", "ap": "S", "ac": "S", "ae": "S", "at": "S", "af": "F", "vn": "V", "bn": "B", "am": "A", "av": "A", "cp": "A", "sl": "A"}
+        if c in create:
+            touched = {k}
+            if k in prev:
+                return i, "handle %d re-used" % k
+            if k not in cur or cur[k][0] != create[c]:
+                return i, "%s: object %d did not come to exist as expected (%s)" % (op, k, cur.get(k))
+        elif c in ("amx", "avx"):
+            if k in cur:
+                return i, "%s: an object exists although its construction threw" % op
+        elif c in ("d", "rsx"):
+            touched = {k}
+            if k in cur:
+                return i, "%s: object still reported" % op
+        elif c in ("vp", "vo", "ve", "ln", "as", "rz", "rzx", "rs", "cl"):
+            touched = {k}
+        elif c == "sa":
+            touched = {k, int(w[2])}
+        for h in set(prev) | set(cur):
+            if h in touched:
+                continue
+            if (h in prev) != (h in cur):
+                return i, "%s: object %d %s" % (op, h, "vanished" if h in prev else "appeared")
+            if nolinks(prev[h]) != nolinks(cur[h]):
+                return i, "%s changed object %d, which it does not name: %s -> %s" % (op, h, prev[h], cur[h])
+        e = cur.get(k)
+
+        def fresh_array(e, nelem, exact=None):
+            if e[2] is None:
+                return "array %d is empty after %s" % (k, op)
+            _, kind, g, span, sgi, sn, links, doff = e
+            if links != 1 or g != sgi:
+                return "%s: array %d should own a new storage alone: %s" % (op, k, e)
+            if sn < nelem or (exact is not None and sn != exact):
+                return "%s: storage of %d slots for %d elements" % (op, sn, nelem)
+            return None
+        msg = None
+        if c in ("a1", "av", "af", "rs") and d["ret"] is not None:
+            g = e[1][0] if e[0] == "S" else e[1] if e[0] == "F" else e[2]
+            if g != d["ret"]:
+                return i, "%s: returned index %s but the object reports %s" % (op, d["ret"], g)
+        if c == "af" and e[2] != int(w[2]):
+            msg = "FixedArray of %s reports %d slots" % (w[2], e[2])
+        elif c == "bn" and len(e[1]) != int(w[2]):
+            msg = "adouble[%s] reports %d indices" % (w[2], len(e[1]))
+        elif c == "vn" and e[1]:
+            msg = "new std::vector is not empty"
+        elif c == "vp" and (len(e[1]) != len(prev[k][1]) + 1 or e[2] < len(e[1])):
+            msg = "emplace_back: %s -> %s" % (prev[k], e)
+        elif c in ("vo", "ve") and e[1] != prev[k][1][:-1]:
+            msg = "%s: elements %s -> %s (the last element is the one destroyed)" % (op, prev[k][1], e[1])
+        elif c in ("am", "av", "rz", "rs"):
+            dims = [int(x) for x in (w[2:] if c in ("av", "rs", "rz") else w[3:])]
+            kind = e[1]
+            if c == "am" and kind != int(w[2]):
+                msg = "am: wrong type"
+            elif 0 in dims:
+                if e[2] is not None:
+                    msg = "%s: a zero dimension must give an empty array: %s" % (op, e)
+            elif kind < 10:
+                msg = fresh_array(e, prod(dims), prod(dims) if kind == 1 else None)
+            else:
+                msg = fresh_array(e, special_size(kind, dims[0]), special_size(kind, dims[0]))
+        elif c in ("cl", "rzx") and e[2] is not None:
+            msg = "%s: array is not empty afterwards: %s" % (op, e)
+        elif c == "cp":
+            s = int(w[2])
+            if e != cur[s]:
+                msg = "copy %s differs from its source %s" % (e, cur[s])
+        elif c == "ln":
+            s = int(w[2])
+            if prev[s][2] is None:
+                if nolinks(e) != nolinks(prev[k]):
+                    msg = "link to an empty array changed the target: %s -> %s" % (prev[k], e)
+            elif e != cur[s]:
+                msg = "linked array %s differs from its source %s" % (e, cur[s])
+        elif c == "sl":
+            s = cur[int(w[2])]
+            if e[2] is None or s[2] is None or e[4:7] != s[4:7] or not (s[2] <= e[2] and e[2] + e[3] <= s[2] + s[3]):
+                msg = "view %s is not inside its source %s" % (e, s)
+        elif c == "as":
+            s = prev[int(w[2])]
+            if prev[k][2] is None and s[2] is not None:
+                if e[2] is None or e[6] != 1 or e[2] != e[4] or e[1] != s[1]:
+                    msg = "assignment to an empty array must allocate a storage of its own: %s" % (e,)
+            elif nolinks(e) != nolinks(prev[k]):
+                msg = "assignment to a non-empty array moved it: %s -> %s" % (prev[k], e)
+        elif c == "sa":
+            s = int(w[2])
+            if cur[k] != prev[s] or cur[s] != prev[k]:
+                msg = "swap: %s,%s -> %s,%s" % (prev[k], prev[s], cur[k], cur[s])
+        if msg:
+            return i, msg
+        prev = cur
+    return None
+
+
+def obj_text(h, P):
+    return "reset\ncfg %d 1\n" % P + "\n".join(h) + "\n"
+
+
+def run_obj_one(exe, h, P):
+    lines, rc, err = vcheck.run_impl(exe, ["obj"], obj_text(h, P))
+    return lines[2:], rc, err
+
+
+def strip_bad(exe, h, P):
+    il = run_obj_one(exe, h, P)[0]
+    return [o for o, l in zip(h, il + [""] * len(h)) if l != "bad-op"]
+
+
+def shrink_obj(exe, h, P, want_oracle):
+    def fails(sub):
+        if not sub:
+            return False
+        il = run_obj_one(exe, sub, P)[0]
+        if len(il) != len(sub):
+            return want_oracle
+        if want_oracle:
+            return obj_oracle(sub, il) is not None
+        ml = vcheck.run_model("galloc", obj_text(sub, P))[2:]
+        return vcheck.first_diff(il, ml) is not None
+    sh = vcheck.ddmin(list(h), fails, max_tests=400)
+    sb = strip_bad(exe, sh, P)
+    return sb if fails(sb) else sh
+
+
+def run_obj_batch(ctx, exe, hists, label, P):
+    """object-layer histories (obj mode, dump of all live objects after every step)"""
+    text = "".join(obj_text(h, P) for h in hists)
+    impl, rc, err = vcheck.run_impl(exe, ["obj"], text)
+    model = vcheck.run_model("galloc", text)
+    pos = 0
+    nbad = 0
+    opc = ctx.notes.setdefault("object_ops_executed", {})
+    for h in hists:
+        n = len(h) + 2
+        il, ml = impl[pos + 2:pos + n], model[pos + 2:pos + n]
+        pos += n
+        ctx.count_case(("objlayer", tuple(h)), nontrivial=any(o.split()[0] in ("d", "cl", "rz", "ln", "rzx") for o in h[:-1]),
+                       sample={"mode": "obj-layer", "history": h[:14], "impl_last": il[-1][:300] if il else None})
+        for o, l in zip(h, il):
+            key = o.split()[0] if l != "bad-op" else "bad-op"
+            opc[key] = opc.get(key, 0) + 1
+        bad = obj_oracle(h, il) if len(il) == len(h) else (len(il), "implementation stopped: rc=%s %s" % (rc, vcheck.san_summary(err)))
+        if bad is not None:
+            nbad += 1
+            if nbad <= 2:
+                k, msg = bad
+                shr = shrink_obj(exe, h, P, want_oracle=True)
+                i2 = run_obj_one(exe, shr, P)[0]
+                b2 = obj_oracle(shr, i2) if len(i2) == len(shr) else (len(i2), msg)
+                ctx.violation("%s [object layer, %s]" % (b2[1] if b2 else msg, label),
+                              {"kind": "oracle", "mode": "obj", "objlayer": True, "packet": P, "history": shr, "step": b2[0] if b2 else k,
+                               "message": b2[1] if b2 else msg, "impl": i2, "build": label})
+            if len(il) != len(h):
+                break
+        elif vcheck.first_diff(il, ml) is not None:
+            ctx.cov["disagreements_checked"] += 1
+            if len(ctx.pending) < 2:
+                shr = shrink_obj(exe, h, P, want_oracle=False)
+                i2 = run_obj_one(exe, shr, P)[0]
+                m2 = vcheck.run_model("galloc", obj_text(shr, P))[2:]
+                ctx.pending.append({"kind": "correspondence",
+                                    "correspondence": "AdeptModel/GradObj.lean + GradAlloc.lean <-> Active/Storage/Array/SpecialMatrix/FixedArray objects",
+                                    "mode": "obj", "objlayer": True, "packet": P, "history": shr, "impl": i2, "model": m2, "build": label,
+                                    "first_difference": vcheck.first_diff(i2, m2)})
+    ctx.cov["traces_validated_against_impl"] += len(hists)
+    return nbad
+
+
+def packet_size(exe):
+    lines, rc, err = vcheck.run_impl(exe, ["obj"], "pk\n")
+    if not lines or not lines[0].startswith("pk "):
+        raise RuntimeError("cannot read the packet size from the harness: %s %s" % (lines, err[-500:]))
+    return int(lines[0].split()[1])
+
+
 # ------------------------------------------------------------------ run
 def run_batch(ctx, exe, mode, hists, label):
     """returns number of oracle failures; correspondence mismatches are parked in ctx.pending"""
@@ -263,7 +846,10 @@ def run(ctx, replay):
         r = json.load(open(replay))
         h = r["history"]
         for label, e in builds:
-            run_batch(ctx, e, r.get("mode", "api"), [h], label)
+            if r.get("objlayer"):
+                run_obj_batch(ctx, e, [h], label, packet_size(e))
+            else:
+                run_batch(ctx, e, r.get("mode", "api"), [h], label)
         report_pending(ctx, fails)
         return
     L = 5 if ctx.tier == "quick" else 7
@@ -287,6 +873,25 @@ def run(ctx, replay):
             bad += run_batch(ctx, e, mode, rnd, label)
             if label == "pausable":
                 bad += run_batch(ctx, e, mode, rnd_p, label + "+pause")
+    # ---- object layer: real objects only (obj mode), every live object reported after every step
+    LO = 5
+    exo = exhaustive_obj(LO)
+    exo_short = exhaustive_obj(LO - 1)
+    n_o, len_o = (400, 200) if ctx.tier == "quick" else (900, 300)
+    ctx.notes["object_layer"] = {"exhaustive_length": LO, "exhaustive_histories": len(exo), "random_histories": n_o, "random_length": len_o,
+                                 "exhaustive_length_pausable_build_quick_tier": LO - 1}
+    for label, e in builds:
+        P = packet_size(e)
+        ctx.notes["object_layer"]["packet_size"] = P
+        dirs = directed_obj(P) + directed_misc(P)
+        ctx.notes["object_layer"]["directed_histories"] = len(dirs)
+        rnd_o = [random_obj_history(ctx.rng, len_o, P, pauses=(label == "pausable")) for _ in range(n_o)]
+        if load_corpus("C08obj"):
+            bad += run_obj_batch(ctx, e, load_corpus("C08obj"), label, P)
+        bad += run_obj_batch(ctx, e, dirs, label, P)
+        # quick tier: the full length on the default build, one step less on the pausable build
+        bad += run_obj_batch(ctx, e, exo if (label == "default" or ctx.tier == "thorough") else exo_short, label, P)
+        bad += run_obj_batch(ctx, e, rnd_o, label, P)
     ctx.cov["rule"] = ("histories of a1/av n/af n/d/nr/rs k n (resize of a live aVector: release then registration)/avx n (block whose "
                        "data allocation fails with std::bad_alloc, interposed allocator)/rsx k n (resize whose data allocation fails) over "
                        "handles: ALL maximal histories of length %d over scalar and block sizes 1..3 (exhaustive) + all of that length over "
@@ -294,14 +899,27 @@ def run(ctx, replay):
                        "register/unregister API and through real adouble/aVector/FixedArray objects; non-trivial = contains a release "
                        "before its last step; distinct = different (mode, op list)" % (L, nrand, rlen))
     ctx.cov["exhaustive"] = False
-    ctx.assumptions += ["destructors release only blocks they own (Legal in GradAllocDefs.lean); registration is independent of "
-                        "pause_recording (pausable build: random pause/continue inside the histories; model ignores them)"]
+    ctx.cov["rule"] += ("; OBJECT LAYER (obj mode, all live objects reported after every step): ALL maximal histories of length %d (quick tier, pausable build: one less) over "
+                        "new adouble / new aVector(2) / failing aVector(2) / std::vector<adouble> + emplace_back / copy, first-element view, "
+                        "clear, resize(3), failing resize(3) of every live array / link of every ordered pair / destruction of every live "
+                        "object; directed sweep: 7 array types x padded and unpadded shapes x every destruction order of copy, link and views "
+                        "after the parent, and directed programs for swap / assignment to an empty array / aliased assignment / scalar copies, "
+                        "temporaries and std::swap over open gaps / std::vector growth over four reallocations / adouble[n] and FixedArray "
+                        "freed in every order; %d random histories of length %d over 31 operation kinds (weights in random_obj_history; counts "
+                        "in object_ops_executed)" % (LO, n_o, len_o))
+    ctx.assumptions += ["`Legal` (a release names a live block) is no longer assumed: theorem C08_obj_history_legal derives it for every "
+                        "history of the object layer AdeptModel/GradObj.lean; that the C++ objects perform the member-level actions the "
+                        "object layer says (GradObj.expand) is what the differential tie checks on every run",
+                        "registration is independent of pause_recording (pausable build: random pause/continue inside the histories; the "
+                        "models ignore them)"]
     if ctx.pending and not ctx.violations:
         # correspondence broke and the sampled histories show no property failure: search harder with the oracle alone
         extra = [random_history(ctx.rng, 1500) for _ in range(300)]
         for label, e in builds:
             for mode in ("api", "obj"):
                 run_batch(ctx, e, mode, extra, label + "/search")
+            P = packet_size(e)
+            run_obj_batch(ctx, e, [random_obj_history(ctx.rng, 400, P, pauses=(label == "pausable")) for _ in range(300)], label + "/search", P)
     report_pending(ctx, fails)
 
 
@@ -316,8 +934,8 @@ def report_pending(ctx, fails):
                       {"kind": "proof", "theorem": "AdeptProofs/Props/C08.lean", "failures": fails}, tag="p", no_input=True)
 
 
-def load_corpus():
-    d = os.path.join(vbuild.VERIF, "corpus", "C08")
+def load_corpus(name="C08"):
+    d = os.path.join(vbuild.VERIF, "corpus", name)
     out = []
     if os.path.isdir(d):
         for fn in sorted(os.listdir(d)):
